@@ -45,6 +45,8 @@ def build(t0, t1, dp, l02, l102, l12, att, cs=0):
     if att:
         t = AttackerAttachment(name='att')
         m.add_attacker(t)
+        t.add_entry_point(assets[0], 'tP')
+        t.add_entry_point(assets[0], 'nosuchstep')
         t.add_entry_point(assets[0], 's')
         t.add_entry_point(assets[2], 'tO')
     return spec, lg, lcf, m, assets
